@@ -817,12 +817,32 @@ func oracle(sp *candSpec, o *candObs) string {
 
 // ---------------------------------------------------------------- Coq printing
 
-// a 32-byte id as one big-endian number (id32 in Run_C07.v); anything else as a byte list
+// Block ids are only compared by the model: the distinct ids of a run are numbered in order
+// of first appearance (idt k in Run_C07.v); the empty id stays the empty byte string.
+var idTags = map[string]int{}
+
 func coqID(id []byte) string {
-	if len(id) != 32 {
-		return hxlib.CoqBytes(id)
+	if len(id) == 0 {
+		return "[]"
 	}
-	return "(id32 " + new(big.Int).SetBytes(id).String() + ")"
+	k, ok := idTags[string(id)]
+	if !ok {
+		k = len(idTags) + 1
+		idTags[string(id)] = k
+	}
+	return fmt.Sprintf("(idt %d)", k)
+}
+
+// large decimal literals are slow to parse in Coq (a 19-digit one costs ~15 ms, a hex one
+// next to nothing): timestamps beyond 32 bits are printed in hexadecimal
+func coqZ(v int64) string {
+	if v > -(1<<31) && v < 1<<31 {
+		return hxlib.CoqZ(v)
+	}
+	if v < 0 {
+		return "(-0x" + new(big.Int).Neg(big.NewInt(v)).Text(16) + ")%Z"
+	}
+	return "(0x" + strconv.FormatInt(v, 16) + ")%Z"
 }
 
 func coqParent(b *blkInfo) string {
@@ -837,7 +857,7 @@ func coqParent(b *blkInfo) string {
 		}
 		voters = "(Some " + hxlib.CoqList(it) + ")"
 	}
-	return fmt.Sprintf("(mkP %s %s %s %s %s)", hxlib.CoqZ(b.height), coqID(b.id), hxlib.CoqZ(b.ts), hxlib.CoqZ(b.reqVer), voters)
+	return fmt.Sprintf("(mkP %s %s %s %s %s)", hxlib.CoqZ(b.height), coqID(b.id), coqZ(b.ts), hxlib.CoqZ(b.reqVer), voters)
 }
 
 func coqCand(o *candObs) string {
@@ -847,10 +867,10 @@ func coqCand(o *candObs) string {
 		if v.signer >= 0 {
 			s = fmt.Sprintf("(Some %d)", v.signer)
 		}
-		vs = append(vs, fmt.Sprintf("mkV %s %s %s", hxlib.CoqZ(v.ts), s, coqID(v.forID)))
+		vs = append(vs, fmt.Sprintf("mkV %s %s %s", coqZ(v.ts), s, coqID(v.forID)))
 	}
 	return fmt.Sprintf("(mkC %s %s %s %s %s %s)", hxlib.CoqZ(o.height), coqID(o.prev), hxlib.CoqZ(o.version),
-		hxlib.CoqZ(o.ts), hxlib.CoqList(vs), hxlib.CoqBool(o.execOK))
+		coqZ(o.ts), hxlib.CoqList(vs), hxlib.CoqBool(o.execOK))
 }
 
 func coqVerify(o *candObs) string {
@@ -872,9 +892,9 @@ func coqImport(o *candObs) string {
 func coqMedian(ts []int64, obs int64) string {
 	var it []string
 	for _, t := range ts {
-		it = append(it, hxlib.CoqZ(t))
+		it = append(it, coqZ(t))
 	}
-	return fmt.Sprintf("(CMedian %s %s)", hxlib.CoqList(it), hxlib.CoqZ(obs))
+	return fmt.Sprintf("(CMedian %s %s)", hxlib.CoqList(it), coqZ(obs))
 }
 
 // ---------------------------------------------------------------- median stream
@@ -1088,12 +1108,12 @@ func genCandidates(c *hxlib.Ctx) {
 	}
 	nE := 5 + r.Intn(3)
 	plans := []*plan{
-		{nval: 4, name: "n4", length: 4, base: 1000000, step: 1000, votersAt: fixedVoters(4), fullAt: map[int]bool{1: true, 2: true, 4: true}},
+		{nval: 4, name: "n4", length: 4, base: 1000000, step: 1000, votersAt: fixedVoters(4), fullAt: map[int]bool{1: true, 2: true}},
 		{nval: 1, name: "n1", length: 3, base: 50, step: 10, votersAt: fixedVoters(1), fullAt: map[int]bool{2: true}},
 		{nval: 2, name: "n2", length: 3, base: 1, step: 3, votersAt: fixedVoters(2), fullAt: map[int]bool{2: true}},
-		{nval: 3, name: "n3neg", length: 3, ts1: ptr64(-100000), base: -99000, step: 500, votersAt: fixedVoters(3), fullAt: map[int]bool{2: true, 3: true}},
+		{nval: 3, name: "n3neg", length: 3, ts1: ptr64(-100000), base: -99000, step: 500, votersAt: fixedVoters(3), fullAt: map[int]bool{2: true}},
 		{nval: nE, name: "nE", length: 6, base: 1700000000000000, step: 2000000,
-			txAt: map[int]string{2: "validators:0,1,2,3", 4: "version:3"}, fullAt: map[int]bool{1: true, 2: true, 5: true, 6: true},
+			txAt: map[int]string{2: "validators:0,1,2,3", 4: "version:3"}, fullAt: map[int]bool{2: true, 5: true, 6: true},
 			votersAt: func(h int) []int {
 				// a validators transaction of block 2 shows in NextValidators of block 3: voters of block 4 and up
 				n := nE
@@ -1106,7 +1126,7 @@ func genCandidates(c *hxlib.Ctx) {
 				}
 				return v
 			}},
-		{nval: 4, name: "n4big", length: 3, ts1: ptr64(big62 - 1000), base: big62 - 500, step: 300, votersAt: fixedVoters(4), fullAt: map[int]bool{2: true, 3: true}},
+		{nval: 4, name: "n4big", length: 3, ts1: ptr64(big62 - 1000), base: big62 - 500, step: 300, votersAt: fixedVoters(4), fullAt: map[int]bool{3: true}},
 		{nval: 0, name: "n0", length: 2, ts1: ptr64(-7), base: 0, step: 0, votersAt: fixedVoters(0), fullAt: map[int]bool{2: true}},
 	}
 	if c.Tier == "thorough" {
@@ -1123,13 +1143,13 @@ func genCandidates(c *hxlib.Ctx) {
 
 // the candidates tried at the heights that do not get the whole catalogue
 var shortList = []string{"honest", "height:-1", "height:+1", "prev:random", "prev:sibling", "version:wrap3", "version:hdr3",
-	"ts:delta-1", "ts:delta+1", "ts:parent", "ts:upper-middle", "exec:", "votes:one-short", "votes:permuted",
-	"votes:foreign-signer", "votes:for-block-below", "votes:duplicate-voter", "median:parent+0", "median:parent+1",
+	"ts:delta-1", "ts:delta+1", "ts:parent", "ts:upper-middle", "votes:one-short", "votes:permuted",
+	"votes:foreign-signer", "votes:for-block-below", "median:parent+0", "median:parent+1",
 	"multi:votes+ts", "live-parent:honest"}
 
 func inShortList(label string) bool {
 	for _, s := range shortList {
-		if label == s || strings.HasPrefix(label, s) {
+		if label == s || strings.HasPrefix(label, s+"/") {
 			return true
 		}
 	}
@@ -1482,8 +1502,9 @@ var _ = hex.EncodeToString
 func main() {
 	log.GlobalLogger().SetOutput(io.Discard)
 	hxlib.Main(hxlib.Spec{
-		ID:   "C07",
-		Rule: "fixture chains (1,2,3,4,5-7 and 0 validators; negative, clock-sized and near-2^62 timestamps; a validator-set change and a next-block-version change) built on a real test node with votes signed by harness wallets; at every height the honest next block is re-encoded with one deviation (height -1/+1/+2/0, previous id random/grandparent/sibling/empty, header or Version() 1/3, timestamp +-1/parent's/parent's+1/0/lower/upper middle/floor mean, vote list permuted/other round/exact quorum/one short/none/foreign signer/other block/other height/other time/other round/garbage/duplicate/extra item, wrong next-validators hash), with honest-form vote lists whose median is the parent's timestamp -1/0/+1/+2, with 2-3 deviations, and as child of a live block; each candidate goes to verifyNewBlock with the explicit parent (CVerify) and through Import/ImportBlock (CImport); plus Timestamp() of vote lists with fixed boundary and random timestamps incl. negative, near-int64-limit and near-2^62 values (CMedian). non-trivial = every candidate that reaches the manager (header version 2) and every median list of >= 2 items; distinct = distinct Coq case term",
-		Gen:  gen, Replay: replay,
+		ID:    "C07",
+		Shard: 150,
+		Rule:  "fixture chains (1,2,3,4,5-7 and 0 validators; negative, clock-sized and near-2^62 timestamps; a validator-set change and a next-block-version change) built on a real test node with votes signed by harness wallets; at every height the honest next block is re-encoded with one deviation (height -1/+1/+2/0, previous id random/grandparent/sibling/empty, header or Version() 1/3, timestamp +-1/parent's/parent's+1/0/lower/upper middle/floor mean, vote list permuted/other round/exact quorum/one short/none/foreign signer/other block/other height/other time/other round/garbage/duplicate/extra item, wrong next-validators hash), with honest-form vote lists whose median is the parent's timestamp -1/0/+1/+2, with 2-3 deviations, and as child of a live block; each candidate goes to verifyNewBlock with the explicit parent (CVerify) and through Import/ImportBlock (CImport); plus Timestamp() of vote lists with fixed boundary and random timestamps incl. negative, near-int64-limit and near-2^62 values (CMedian). non-trivial = every candidate that reaches the manager (header version 2) and every median list of >= 2 items; distinct = distinct Coq case term",
+		Gen:   gen, Replay: replay,
 	})
 }
